@@ -2,6 +2,7 @@ package rules
 
 import (
 	"go/token"
+	"go/types"
 	"strings"
 
 	"golang.org/x/tools/go/ssa"
@@ -78,6 +79,15 @@ func (h *hookEval) actionKind(v ssa.Value, depth int) string {
 			return "raw"
 		}
 	}
+	resIdx := 0
+	if ex, ok := v.(*ssa.Extract); ok {
+		if call, ok := ex.Tuple.(*ssa.Call); ok {
+			// one result of a helper that returns the effective action among other things
+			// (action, denied := s.extVerdict(result))
+			resIdx = ex.Index
+			v = call
+		}
+	}
 	switch x := v.(type) {
 	case *ssa.Phi:
 		hasDefer, hasRaw := false, false
@@ -112,17 +122,42 @@ func (h *hookEval) actionKind(v ssa.Value, depth int) string {
 		}
 		prm := g.Params[pi]
 		okAll, n := true, 0
+		// actionEq: the block is dominated by an edge prm.Action == k
+		actionEq := func(at *ssa.BasicBlock, k int64) bool {
+			for _, b := range g.Blocks {
+				for e := 0; e < len(b.Succs) && len(b.Succs) == 2; e++ {
+					rel, ok := eng.EdgeRel(b, e)
+					if !ok || rel.Op != token.EQL || !eng.EdgeDominates(b, e, at) {
+						continue
+					}
+					kk, isC := eng.ConstInt(rel.Y)
+					if !isC || kk != k {
+						continue
+					}
+					if u, ok := eng.StripConv(rel.X).(*ssa.UnOp); ok && u.Op == token.MUL {
+						if fa, ok := u.X.(*ssa.FieldAddr); ok && fa.X == ssa.Value(prm) && eng.FieldOfAddr(fa).Name() == "Action" {
+							return true
+						}
+					}
+				}
+			}
+			return false
+		}
 		eng.EachInstr(g, func(in ssa.Instruction) {
 			ret, ok := in.(*ssa.Return)
-			if !ok || len(eng.ReturnResults(ret)) != 1 {
+			if !ok || resIdx >= len(eng.ReturnResults(ret)) {
 				return
 			}
 			n++
-			rv := eng.StripConv(eng.ReturnResults(ret)[0])
+			rv := eng.StripConv(eng.ReturnResults(ret)[resIdx])
 			if k, isC := eng.ConstInt(rv); isC && k == h.deferV {
-				if !eng.KnownNil(prm, ret.Block()) {
+				if !eng.KnownNil(prm, ret.Block()) && !actionEq(ret.Block(), k) {
 					okAll = false
 				}
+				return
+			}
+			// a constant returned where the answer's action is known to equal it
+			if k, isC := eng.ConstInt(rv); isC && actionEq(ret.Block(), k) {
 				return
 			}
 			if u, ok := rv.(*ssa.UnOp); ok && u.Op == token.MUL {
@@ -200,6 +235,12 @@ func (h *hookEval) caseAction(kind string, hc hookCase) (int64, bool) {
 // contradicts it are removed.
 func (h *hookEval) feasible(hc hookCase) eng.EdgeOK {
 	return func(b *ssa.BasicBlock, k int) bool {
+		// a boolean the helper that received the answer returned (denied, ok, …)
+		if v, pol, ok := eng.CondTruth(b, k); ok {
+			if bv, known := h.helperBool(v, hc); known && bv != pol {
+				return false
+			}
+		}
 		rel, ok := eng.EdgeRel(b, k)
 		if !ok {
 			return true
@@ -235,4 +276,86 @@ func (h *hookEval) feasible(hc hookCase) eng.EdgeOK {
 		}
 		return true
 	}
+}
+
+// newHookEvalParam evaluates a helper that receives the hook's answer in parameter prm.
+func (c *Ctx) newHookEvalParam(g *ssa.Function, prm *ssa.Parameter) *hookEval {
+	h := &hookEval{c: c, fn: g, res: map[ssa.Value]bool{prm: true}}
+	for _, a := range eng.ValueAliases(prm) {
+		h.res[a] = true
+	}
+	h.deferV, _ = c.actionConst("ActionDefer")
+	h.denyV, _ = c.actionConst("ActionDeny")
+	h.allV, h.hasAllow = c.actionConst("ActionAllow")
+	return h
+}
+
+// helperOf: v is (a result of) a call of a module helper that receives the answer; returns
+// the call, the result index and the parameter bound to the answer.
+func (h *hookEval) helperOf(v ssa.Value) (*ssa.Call, int, *ssa.Parameter) {
+	idx := 0
+	call, ok := v.(*ssa.Call)
+	if ex, isEx := v.(*ssa.Extract); isEx {
+		call, ok = ex.Tuple.(*ssa.Call)
+		idx = ex.Index
+	}
+	if !ok || call == nil {
+		return nil, 0, nil
+	}
+	g := eng.StaticCallee(call.Common())
+	if g == nil || !eng.InModule(g) || len(g.Blocks) == 0 {
+		return nil, 0, nil
+	}
+	for i, a := range call.Call.Args {
+		if h.res[a] && i < len(g.Params) {
+			return call, idx, g.Params[i]
+		}
+	}
+	return nil, 0, nil
+}
+
+// helperBool: the constant boolean a helper that received the answer returns under case hc
+// (known=false when the reachable returns disagree or are not constants).
+func (h *hookEval) helperBool(v ssa.Value, hc hookCase) (bool, bool) {
+	call, idx, prm := h.helperOf(v)
+	if call == nil {
+		return false, false
+	}
+	g := prm.Parent()
+	if b, isB := g.Signature.Results().At(idx).Type().Underlying().(*types.Basic); !isB || b.Kind() != types.Bool {
+		return false, false
+	}
+	sub := h.c.newHookEvalParam(g, prm)
+	var vals []bool
+	undet := false
+	eng.EachInstr(g, func(in ssa.Instruction) {
+		ret, ok := in.(*ssa.Return)
+		if !ok || eng.IsRecoverBlock(ret.Block()) {
+			return
+		}
+		// reachable under the case?
+		if (&eng.Search{Target: func(x ssa.Instruction) bool { return x == in }, Edge: sub.feasible(hc)}).FromEntry(g) == nil {
+			return
+		}
+		res := eng.ReturnResults(ret)
+		if idx >= len(res) {
+			undet = true
+			return
+		}
+		bv, isC := eng.ConstBool(res[idx])
+		if !isC {
+			undet = true
+			return
+		}
+		vals = append(vals, bv)
+	})
+	if undet || len(vals) == 0 {
+		return false, false
+	}
+	for _, x := range vals[1:] {
+		if x != vals[0] {
+			return false, false
+		}
+	}
+	return vals[0], true
 }
